@@ -259,10 +259,12 @@ func cliCM(name, extra string) string {
 }
 
 type flagCase struct {
-	Name    string   `json:"name"`
-	Flags   []string `json:"flags"`
-	Reject  string   `json:"reject,omitempty"`  // substring of "METHOD path/name" the server answers with 500
-	Foreign bool     `json:"foreign,omitempty"` // an object of the manifest's name exists and belongs to nobody
+	Name        string   `json:"name"`
+	Flags       []string `json:"flags"`
+	Reject      string   `json:"reject,omitempty"`      // substring of "METHOD path/name" the server answers with 500
+	Foreign     bool     `json:"foreign,omitempty"`     // an object of the manifest's name exists and belongs to nobody
+	ForeignName string   `json:"foreignName,omitempty"` // which one (default rel-aa)
+	AnyOutcome  bool     `json:"anyOutcome,omitempty"`  // the command may refuse the spelling or accept it: only the end state is judged
 	// expectations on the end state (over and above install == upgrade --install)
 	WantErr     bool              `json:"wantErr"`
 	Unchanged   bool              `json:"unchanged,omitempty"`   // the world is as it was before the command
@@ -279,7 +281,7 @@ func corrFlagCLI(seed uint64, n int, tier string, out string, replay string) {
 	if prop == "" {
 		prop = "C03"
 	}
-	rep := NewReport(prop, "flagcli", seed, "case = a flag set of a table (atomic + one rejected create; schema-violating --set; --skip-schema-validation; --dry-run bare/=client/=server; --no-hooks; --labels; --take-ownership over a foreign object; plain) x a starting history (none; installed then uninstalled with --keep-history) x the two spellings of the operation (`helm install [--replace]`, `helm upgrade --install`), each run as the real helm command in a child process against a stateful simulated API server that also holds the release records (Secrets); monitors: both spellings end in the same state with the same outcome, and the end state is the one the property demands (atomic failure: no record and no object of the manifest (hook objects stay, by their delete policy); schema violation: error and nothing created; dry run: world unchanged; no-hooks: hook object absent; ...); non-trivial = every case; distinct = flag set x history x spelling")
+	rep := NewReport(prop, "flagcli", seed, "case = a flag set of a table (atomic + one rejected create; schema-violating --set; --skip-schema-validation; --dry-run bare/=client/=server and in mixed-case spellings (refused or honoured, never executed); --no-hooks; --labels; --take-ownership over a foreign object; plain) x a starting history (none; installed then uninstalled with --keep-history) x the two spellings of the operation (`helm install [--replace]`, `helm upgrade --install`), each run as the real helm command in a child process against a stateful simulated API server that also holds the release records (Secrets); monitors: both spellings end in the same state with the same outcome, and the end state is the one the property demands (atomic failure: no record and no object of the manifest (hook objects stay, by their delete policy); schema violation: error and nothing created; dry run: world unchanged; no-hooks: hook object absent; ...); non-trivial = every case; distinct = flag set x history x spelling")
 	tmp, _ := os.MkdirTemp("", "corr-flagcli")
 	defer os.RemoveAll(tmp)
 	chartDir := filepath.Join(tmp, "demo")
@@ -313,6 +315,9 @@ func corrFlagCLI(seed uint64, n int, tier string, out string, replay string) {
 		{Name: "dry-run-client", Flags: []string{"--dry-run=client"}, Unchanged: true, Prop: "C06"},
 		{Name: "dry-run-server", Flags: []string{"--dry-run=server"}, Unchanged: true, Prop: "C06"},
 		{Name: "dry-run-atomic", Flags: []string{"--dry-run", "--atomic"}, Unchanged: true, Prop: "C06"},
+		{Name: "dry-run-True", Flags: []string{"--dry-run=True"}, Unchanged: true, AnyOutcome: true, Prop: "C06"},
+		{Name: "dry-run-Server", Flags: []string{"--dry-run=Server", "--create-namespace"}, Unchanged: true, AnyOutcome: true, Prop: "C06"},
+		{Name: "dry-run-CLIENT", Flags: []string{"--dry-run=CLIENT"}, Unchanged: true, AnyOutcome: true, Prop: "C06"},
 		{Name: "no-hooks", Flags: []string{"--no-hooks"}, WantObjects: []string{"rel-aa", "rel-zz"}, NoObjects: []string{"rel-hook"}, Prop: "C12"},
 		{Name: "labels", Flags: []string{"--labels", "team=x"}, WantObjects: []string{"rel-aa"}, Prop: "C10"},
 		{Name: "foreign-object", Foreign: true, WantErr: true, Prop: "C07"},
@@ -347,6 +352,10 @@ func corrFlagCLI(seed uint64, n int, tier string, out string, replay string) {
 			WantRecords: []string{"rel.v1=superseded", "rel.v2=failed", "rel.v3=deployed"}, WantData: map[string]string{"rel-aa": `{"replicas":"1"}`}},
 		{Name: "upgrade-schema-violated", Flags: []string{"--set", "replicas=-3"}, WantErr: true, Unchanged: true, Prop: "C14"},
 		{Name: "upgrade-dry-run", Flags: []string{"--dry-run"}, Unchanged: true, Prop: "C06"},
+		{Name: "upgrade-dry-run-True", Flags: []string{"--dry-run=True"}, Unchanged: true, AnyOutcome: true, Prop: "C06"},
+		{Name: "upgrade-dry-run-Server", Flags: []string{"--dry-run=Server"}, Unchanged: true, AnyOutcome: true, Prop: "C06"},
+		{Name: "upgrade-foreign-new-object", Foreign: true, ForeignName: "rel-new", WantErr: true, Unchanged: true, Prop: "C03"},
+		{Name: "upgrade-foreign-new-object-atomic", Foreign: true, ForeignName: "rel-new", Flags: []string{"--atomic", "--cleanup-on-fail"}, WantErr: true, Unchanged: true, Prop: "C03"},
 		{Name: "upgrade-dry-run-server-atomic", Flags: []string{"--dry-run=server", "--atomic"}, Unchanged: true, Prop: "C06"},
 	}
 	nPairs := len(runs)
@@ -382,7 +391,11 @@ func corrFlagCLI(seed uint64, n int, tier string, out string, replay string) {
 			}
 			if ru.c.Foreign {
 				w.api.mu.Lock()
-				w.api.objs["api/v1/namespaces/default/configmaps/rel-aa"] = map[string]any{"apiVersion": "v1", "kind": "ConfigMap", "metadata": map[string]any{"name": "rel-aa", "namespace": "default"}, "data": map[string]any{"theirs": "1"}}
+				fn := ru.c.ForeignName
+				if fn == "" {
+					fn = "rel-aa"
+				}
+				w.api.objs["api/v1/namespaces/default/configmaps/"+fn] = map[string]any{"apiVersion": "v1", "kind": "ConfigMap", "metadata": map[string]any{"name": fn, "namespace": "default"}, "data": map[string]any{"theirs": "1"}}
 				w.api.mu.Unlock()
 			}
 			ru.before = w.state()
@@ -444,7 +457,7 @@ func corrFlagCLI(seed uint64, n int, tier string, out string, replay string) {
 				continue
 			}
 			rep.H(fmt.Sprintf("%s:%s:err=%v", ru.c.Name, ru.spell, ru.failed))
-			if ru.failed != ru.c.WantErr {
+			if ru.failed != ru.c.WantErr && !ru.c.AnyOutcome {
 				rep.Issue(Issue{Kind: "monitor", Fingerprint: fp(ru.c.Name + ":outcome"), What: fmt.Sprintf("`%s` with %v on history %s: failed=%v, the property demands failed=%v", ru.spell, ru.c.Flags, ru.hist, ru.failed, ru.c.WantErr), Case: cs, Impl: ru.after, Seed: seed, Index: i + k})
 			}
 			if ru.c.Unchanged && !jsonEqual(ru.before, ru.after) {
@@ -508,7 +521,7 @@ func corrFlagCLI(seed uint64, n int, tier string, out string, replay string) {
 // error), succeeds exactly when every --show-only pattern names a rendered template, and what it prints under
 // --show-only is a subset of what it prints without.
 func corrTemplateCLI(seed uint64, n int, tier string, out string, replay string) {
-	rep := NewReport("C20", "templatecli", seed, "case = `helm template` (the real command in a child process, no cluster) with a subset of --include-crds, --skip-tests, --no-hooks, --is-upgrade, --skip-crds, --kube-version, --api-versions, --release-name/--output-dir and 0-2 --show-only patterns (existing template, glob, hook file, test file, sub-chart template, missing file, a crds/ file) over a chart with multi-document CRD files (one starting with `---`), hooks, tests, a sub-chart and NOTES; monitors: the command returns (a panic or fatal error kills the child), it fails exactly when a --show-only pattern matches nothing, and every document printed under --show-only is printed without it; non-trivial = at least two flags; distinct = the argument list")
+	rep := NewReport("C20", "templatecli", seed, "case = `helm template` (the real command in a child process, no cluster) with a subset of --include-crds, --skip-tests, --no-hooks, --is-upgrade, --skip-crds, --kube-version, --api-versions, --release-name/--output-dir and 0-2 --show-only patterns (existing template, glob, hook file, test file, sub-chart template, missing file, a crds/ file) over a chart with multi-document CRD files (one starting with `---`), hooks, tests, a sub-chart and NOTES; monitors: the command returns (a panic or fatal error kills the child), it fails exactly when a --show-only pattern matches nothing, every document printed under --show-only is printed without it, and (without --show-only) the files written with --output-dir hold exactly the documents printed to stdout; non-trivial = at least two flags; distinct = the argument list")
 	tmp, _ := os.MkdirTemp("", "corr-templatecli")
 	defer os.RemoveAll(tmp)
 	chartDir := filepath.Join(tmp, "demo")
@@ -522,6 +535,7 @@ func corrTemplateCLI(seed uint64, n int, tier string, out string, replay string)
 		"crds/second.yaml":             crd("bazs"),
 		"templates/cm.yaml":            cliCM("cm", ""),
 		"templates/many.yaml":          cliCM("m1", "") + "---\n" + cliCM("m2", ""),
+		"templates/mixed.yaml":         cliCM("plain", "") + "---\n" + cliCM("mixedhook", "  annotations:\n    \"helm.sh/hook\": post-install\n") + "---\n" + cliCM("plain2", ""),
 		"templates/hook.yaml":          cliCM("hook", "  annotations:\n    \"helm.sh/hook\": pre-install,pre-upgrade\n"),
 		"templates/tests/test.yaml":    cliCM("test", "  annotations:\n    \"helm.sh/hook\": test\n"),
 		"templates/NOTES.txt":          "notes for {{ .Release.Name }}\n",
@@ -590,6 +604,8 @@ func corrTemplateCLI(seed uint64, n int, tier string, out string, replay string)
 		outp, full    string
 		ret, failed   bool
 		fret, ffailed bool
+		dirRan        bool
+		dirOut        string
 	}
 	results := make([]res, len(cases))
 	var wg sync.WaitGroup
@@ -603,6 +619,18 @@ func corrTemplateCLI(seed uint64, n int, tier string, out string, replay string)
 			home := filepath.Join(tmp, fmt.Sprintf("home-%d", i))
 			var rs res
 			rs.outp, rs.ret, rs.failed = helmCLI(nil, home, cases[i].args, true)
+			if !cases[i].shown {
+				od := filepath.Join(home, "out")
+				_, r2, f2 := helmCLI(nil, home, append(append([]string{}, cases[i].args...), "--output-dir", od), false)
+				rs.dirRan = r2 && !f2
+				filepath.WalkDir(od, func(p string, d os.DirEntry, err error) error {
+					if err == nil && !d.IsDir() {
+						b, _ := os.ReadFile(p)
+						rs.dirOut += "\n" + string(b)
+					}
+					return nil
+				})
+			}
 			if cases[i].shown {
 				var a []string
 				for j := 0; j < len(cases[i].args); j++ {
@@ -648,6 +676,27 @@ func corrTemplateCLI(seed uint64, n int, tier string, out string, replay string)
 		if rs.failed != c.wantErr {
 			rep.Issue(Issue{Kind: "monitor", Fingerprint: "C20:cli:template:outcome", What: fmt.Sprintf("helm template %v: failed=%v, expected failed=%v (a --show-only pattern matches nothing exactly when ...)", c.args[3:], rs.failed, c.wantErr), Case: cs, Impl: trunc(rs.outp, 300), Seed: seed, Index: i})
 			continue
+		}
+		if !c.shown && !rs.failed {
+			// --output-dir writes every document it prints to stdout, once, into the file of its template
+			if !rs.dirRan {
+				rep.Issue(Issue{Kind: "monitor", Fingerprint: "C08:cli:output-dir-failed", What: "helm template succeeds to stdout and fails with --output-dir", Case: cs, Seed: seed, Index: i})
+			} else {
+				std, dir := docsOf(rs.outp), docsOf(rs.dirOut)
+				for d := range std {
+					if !dir[d] {
+						rep.Issue(Issue{Kind: "monitor", Fingerprint: "C08:cli:output-dir-lost", What: "a document printed by helm template is in none of the files written with --output-dir", Case: cs, Impl: trunc(d, 300), Seed: seed, Index: i})
+						break
+					}
+				}
+				for d := range dir {
+					if !std[d] {
+						rep.Issue(Issue{Kind: "monitor", Fingerprint: "C08:cli:output-dir-extra", What: "a document written with --output-dir is not printed by helm template", Case: cs, Impl: trunc(d, 300), Seed: seed, Index: i})
+						break
+					}
+				}
+				rep.H("template:output-dir-compared")
+			}
 		}
 		if c.shown && !rs.failed && !rs.ffailed {
 			full := docsOf(rs.full)
